@@ -35,23 +35,53 @@ fn read_fasta<R: BufRead>(r: R) -> Result<Vec<fasta::Record>, String> {
     }
 }
 
+/// `read_definition` / `read_sequence` loop with ONE reused `Definition` and ONE reused sequence
+/// buffer (cleared by the caller, as with `read_to_end`): nothing of a long record with a
+/// description may survive into a following short / empty one without description.
+fn read_fasta_reused<R: BufRead>(r: R) -> Result<Vec<fasta::Record>, String> {
+    match guard::catch(move || -> std::io::Result<Vec<fasta::Record>> {
+        let mut rd = fasta::io::Reader::new(r);
+        let mut def = fasta::record::Definition::default();
+        let mut buf = Vec::new();
+        let mut v = Vec::new();
+        while rd.read_definition(&mut def)? != 0 {
+            buf.clear();
+            rd.read_sequence(&mut buf)?;
+            v.push(fasta::Record::new(def.clone(), fasta::record::Sequence::from(buf.clone())));
+        }
+        Ok(v)
+    }) {
+        Err(p) => Err(format!("panic:{}", p.sig)),
+        Ok(Err(e)) => Err(format!("error:{e}")),
+        Ok(Ok(v)) => Ok(v),
+    }
+}
+
 pub fn run_fasta_rt(ctx: &Ctx, idx: u64, c: &Case, o: &mut CaseOut) {
     let mut rng = Rng::new(c.pseed, 0xFA, 0);
     let w = c.width.max(1);
     let mut records = Vec::new();
     let mut any_empty = false;
     for i in 0..c.nseq {
-        let len = match rng.below(8) {
-            0 => 0,
-            1 => 1,
-            2 => w,
-            3 => w + 1,
-            4 => 2 * w,
-            5 => (3 * w).saturating_sub(1),
+        // every 4th record is long and described, the one after it short or empty and bare
+        let len = match (i % 4, rng.below(8)) {
+            (0, _) => 3 * w.min(300) + 5 + rng.usize_below(40),
+            (1, k) => (k % 3) as usize,
+            (_, 0) => 0,
+            (_, 1) => 1,
+            (_, 2) => w,
+            (_, 3) => w + 1,
+            (_, 4) => 2 * w,
+            (_, 5) => (3 * w).saturating_sub(1),
             _ => rng.usize_below(4 * w.min(300) + 2),
         };
         any_empty |= len == 0;
-        let def = fasta::record::Definition::new(model::gen_name(&mut rng, i), model::gen_desc(&mut rng).map(|d| d.into()));
+        let desc = match i % 4 {
+            0 => Some(model::gen_desc(&mut rng).unwrap_or_else(|| "a long description ACGT".to_string())),
+            1 => None,
+            _ => model::gen_desc(&mut rng),
+        };
+        let def = fasta::record::Definition::new(model::gen_name(&mut rng, i), desc.map(|d| d.into()));
         records.push(fasta::Record::new(def, fasta::record::Sequence::from(gen_seq(&mut rng, len))));
     }
     let recs = records.clone();
@@ -86,6 +116,8 @@ pub fn run_fasta_rt(ctx: &Ctx, idx: u64, c: &Case, o: &mut CaseOut) {
         (format!("bufreader({cap})"), read_fasta(BufReader::with_capacity(cap, &bytes[..]))),
         ("chunked(random 5)".into(), read_fasta(ChunkedRead::from_slice(&bytes, Sizes::Random(5, rng.next_u64())))),
         ("chunked(cuts at terminators)".into(), read_fasta(ChunkedRead::from_slice(&bytes, Sizes::Cuts(index::terminator_cuts(&bytes))))),
+        ("slice/read_definition+read_sequence into reused buffers".into(), read_fasta_reused(&bytes[..])),
+        (format!("bufreader({cap})/read_definition+read_sequence into reused buffers"), read_fasta_reused(BufReader::with_capacity(cap, &bytes[..]))),
     ];
     let mut evals = 0u64;
     for (name, got) in &forms {
@@ -237,10 +269,14 @@ pub fn run_fastq(ctx: &Ctx, idx: u64, c: &Case, o: &mut CaseOut) {
         if rng.chance(1, 10) {
             name.push_str("ü");
         }
-        let desc: Vec<u8> = if rng.bool() { Vec::new() } else { (0..1 + rng.usize_below(12)).map(|_| DESC[rng.usize_below(DESC.len())]).collect() };
-        let len = match rng.below(6) {
-            0 => 0,
-            1 => 1,
+        // every 4th record is long and described, the one after it short or empty and bare (the readers
+        // fill ONE reused record)
+        let desc: Vec<u8> = if i % 4 == 1 || (i % 4 != 0 && rng.bool()) { Vec::new() } else { (0..1 + rng.usize_below(12)).map(|_| DESC[rng.usize_below(DESC.len())]).collect() };
+        let len = match (i % 4, rng.below(6)) {
+            (0, _) => 120 + rng.usize_below(80),
+            (1, k) => (k % 3) as usize,
+            (_, 0) => 0,
+            (_, 1) => 1,
             _ => rng.usize_below(160),
         };
         let seq: Vec<u8> = (0..len).map(|_| b"ACGTN"[rng.usize_below(5)]).collect();
